@@ -14,8 +14,9 @@ void hwloc_set_linuxfs_hooks(struct hwloc_binding_hooks *h, struct hwloc_topolog
 #endif
 
 static struct hwloc_topology *T;
-static int calls, last_hook, last_flags, last_policy; static hwloc_const_bitmap_t last_set; static int ret_a, ret_b, err_a, err_b;
-#define REC(id, s, fl) do { calls++; last_hook = id; last_set = s; last_flags = fl; } while (0)
+static int calls, last_hook, last_flags, last_policy, last_weight; static unsigned long last_w; static hwloc_const_bitmap_t last_set; static int ret_a, ret_b, err_a, err_b;
+/* the set is sampled inside the hook: by-cpuset membind entry points free their temporary nodeset before returning */
+#define REC(id, s, fl) do { calls++; last_hook = id; last_set = s; last_w = hwloc_bitmap_to_ulong(s); last_weight = hwloc_bitmap_weight(s); last_flags = fl; } while (0)
 static int hk_set_thisproc(hwloc_topology_t t, hwloc_const_cpuset_t s, int fl) { (void) t; REC(1, s, fl); errno = err_a; return ret_a; }
 static int hk_set_thisthread(hwloc_topology_t t, hwloc_const_cpuset_t s, int fl) { (void) t; REC(2, s, fl); errno = err_b; return ret_b; }
 static int hk_set_proc(hwloc_topology_t t, hwloc_pid_t p, hwloc_const_cpuset_t s, int fl) { (void) t; (void) p; REC(3, s, fl); errno = err_a; return ret_a; }
@@ -79,7 +80,7 @@ VP_HARNESS(h_set_cpubind)
     int first = (flags & HWLOC_CPUBIND_PROCESS) ? (hp ? 1 : 0) : (flags & HWLOC_CPUBIND_THREAD) ? (ht ? 2 : 0) : (hp ? 1 : ht ? 2 : 0);
     if (!first) VP_CHECK(r == -1 && errno == ENOSYS && calls == 0, "set_cpubind: no hook -> -1/ENOSYS");
     else {
-      VP_CHECK(calls >= 1 && vp_w(last_set) == expect && hwloc_bitmap_weight(last_set) > 0, "set_cpubind: a set covering the topology reaches the hook as the complete set, any other valid set unchanged");
+      VP_CHECK(calls >= 1 && last_w == expect && last_weight > 0, "set_cpubind: a set covering the topology reaches the hook as the complete set, any other valid set unchanged");
       if (!(flags & (HWLOC_CPUBIND_PROCESS | HWLOC_CPUBIND_THREAD)) && hp && ret_a < 0 && err_a == ENOSYS) {
         if (ht) VP_CHECK(calls == 2 && last_hook == 2 && r == ret_b, "set_cpubind: ENOSYS from the process hook falls back to the thread hook");
         else VP_CHECK(calls == 1 && r == -1 && errno == ENOSYS, "set_cpubind: ENOSYS without fallback hook");
@@ -87,10 +88,10 @@ VP_HARNESS(h_set_cpubind)
     }
 #else
     if (!hp) VP_CHECK(r == -1 && errno == ENOSYS && calls == 0, "set_proc/thread_cpubind: no hook -> -1/ENOSYS");
-    else VP_CHECK(calls == 1 && last_hook == (EP == 1 ? 3 : 4) && vp_w(last_set) == expect && r == ret_a && last_flags == flags, "set_proc/thread_cpubind: the fixed set reaches the hook");
+    else VP_CHECK(calls == 1 && last_hook == (EP == 1 ? 3 : 4) && last_w == expect && r == ret_a && last_flags == flags, "set_proc/thread_cpubind: the fixed set reaches the hook");
 #endif
   }
-  VP_WITNESS_IF(!bad && calls && vp_w(last_set) == CCPUS && q == CPUS, "the topology set replaced by the complete set");
+  VP_WITNESS_IF(!bad && calls && last_w == CCPUS && q == CPUS, "the topology set replaced by the complete set");
   VP_WITNESS_IF(bad && q == 0x2f, "an out-of-range superset rejected");
 }
 
@@ -146,12 +147,17 @@ VP_HARNESS(h_set_membind)
     unsigned long expect;
     if (bynode) expect = (NODES & ~q) == 0 ? CNODES : q;
     else if ((CPUS & ~q) == 0) expect = CNODES;
-    else expect = (q & 0x1) ? 0x1 : 0x0;          /* only NUMA0 (cpuset {PU0}) is left in the topology; PU2/PU5 have no local node */
-    if (expect) VP_CHECK(vp_w(last_set) == expect && last_policy == policy, "set_membind: the hook receives the complete nodeset for a covering set, the (converted) set otherwise");
+    else {
+      expect = (q & 0x1) ? 0x1 : 0x0;          /* only NUMA0 (cpuset {PU0}) is left in the topology; PU2/PU5 have no local node */
+      if ((NODES & ~expect) == 0) expect = CNODES;   /* the converted nodeset goes through the by-nodeset path: covering -> complete */
+    }
+    if (expect) VP_CHECK(last_w == expect && last_policy == policy, "set_membind: the hook receives the complete nodeset for a covering set, the (converted) set otherwise");
   }
   if (!(flags & ~HWLOC_MEMBIND_ALLFLAGS) && pol_ok && !set_bad && !hp && !ht && bynode) VP_CHECK(r == -1 && (errno == ENOSYS || errno == EINVAL) && calls == 0, "set_membind: no hook -> -1/ENOSYS");
-  VP_WITNESS_IF(calls && bynode && q == NODES && vp_w(last_set) == CNODES, "the topology nodeset replaced by the complete nodeset");
+  VP_WITNESS_IF(calls && bynode && q == NODES && last_w == CNODES, "the topology nodeset replaced by the complete nodeset");
+  if (!(flags & ~HWLOC_MEMBIND_ALLFLAGS) && pol_ok && !set_bad && !bynode && !(q & 0x1) && (CPUS & ~q)) VP_CHECK(r == -1 && calls == 0, "set_membind: a cpuset with no local memory converts to an empty nodeset and is rejected before the hook");
   VP_WITNESS_IF(calls && !bynode && q == 0x1, "a cpuset converted to its local node");
+  VP_WITNESS_IF(!calls && !bynode && q == 0x4 && r == -1 && pol_ok && !(flags & ~HWLOC_MEMBIND_ALLFLAGS), "a cpuset without local memory rejected");
 }
 
 /* ---- dummy hooks for a topology that does not describe this system --------------------------------------------------- */
